@@ -24,6 +24,7 @@ import Gama.Lemmas.StatanLoops
 import Gama.Lemmas.StatanMono
 import Gama.Lemmas.StatanHill
 import Gama.Lemmas.StatanGenTie
+import Gama.Lemmas.StatanChiMono
 namespace Gama.Props.C17
 open Gama Gama.Statan Real
 
@@ -344,5 +345,91 @@ theorem C17_antisym_source (fuel : ℕ) (N : ℤ) {α : ℝ} (h : α ≠ 1 / 2) 
 
 -- non-vacuity: α = 1/4 ≠ 1/2
 example : (1 / 4 : ℝ) ≠ 1 / 2 := by norm_num
+
+/-! ## Round 9: monotonicity of `Chi_square`, n ≥ 3 (on the regenerated function)
+
+`Chi_square(p, n) = n·z³` with `z = chiZ n (Normal p)`: the probability enters through the normal critical value only.
+Inside one piece of the selector (`|t| < (n−1)/4`: polynomial B, else A) and inside the window `t² ≤ (49/16)·n`
+(`|t/√n| ≤ 7/4`; for n ≥ 4 this contains every `|t| ≤ 3.5`, i.e. all tail probabilities 0.0005 … 0.9995) the value is
+strictly increasing in `t`.  NOT provable and FALSE in general: (a) across the junction of the two pieces
+(`C17_chi2_junction_step_9`: a downward step at t = −2 for n = 9; replayed on the C++ for n = 7, 8, 9 — finding C17-F2),
+(b) outside the window in the extreme tails (`C17_chi2_extreme_tail_turns_4`: known finding C17-F1).
+RESIDUE for "monotone in p": `Normal` itself strictly decreasing (hypothesis `hN` below; over ℝ it is a statement about the
+partial sums / convergents that `NormalDistribution` returns, not proved; in floating point it is FALSE below α ≈ 1e-9, see
+the report). -/
+
+/-- **the probability enters through `Normal(p)` only** (regenerated `Chi_square`, every n ≥ 3) -/
+theorem C17_chi2_through_normal (fuel : ℕ) (p : ℝ) {n : ℤ} (hn : 3 ≤ n) :
+    Gen.Statan.Chi_square fuel p n = (n : ℝ) * chiZ n (Gen.Statan.Normal fuel p) ^ 3 := by
+  rw [← chiSquare_eq_gen, ← normal_eq_gen]; exact chiSquare_eq_chiZ fuel p hn
+
+/-- **both polynomials are strictly increasing** in `f2 = t/√n` on [−7/4, 7/4], for every `f1 = 1/n ∈ [0, 1/3]`
+    (the regenerated `chiPolyA`, `chiPolyB`: a changed coefficient re-opens the proof) -/
+theorem C17_chi2_poly_mono {f1 u v : ℝ} (h0 : 0 ≤ f1) (h1 : f1 ≤ 1 / 3) (hu : |u| ≤ 7 / 4) (hv : |v| ≤ 7 / 4)
+    (huv : u < v) :
+    StatanGen.chiPolyA f1 u < StatanGen.chiPolyA f1 v ∧ StatanGen.chiPolyB f1 u < StatanGen.chiPolyB f1 v :=
+  ⟨chiPolyA_strictMono h0 h1 hu hv huv, chiPolyB_strictMono h0 h1 hu hv huv⟩
+
+/-- **piecewise monotone, every n ≥ 3**: two critical values `s < t` of the normal distribution inside the window and
+    inside the same piece of the selector give `n·chiZ(s)³ < n·chiZ(t)³` (no sign condition: odd power) -/
+theorem C17_chi2_piecewise_mono {n : ℤ} (hn : 3 ≤ n) {s t : ℝ} (hst : s < t)
+    (hsel : StatanGen.chiSel n s = StatanGen.chiSel n t)
+    (hs : s ^ 2 ≤ 49 / 16 * (n : ℝ)) (ht : t ^ 2 ≤ 49 / 16 * (n : ℝ)) :
+    chiZ n s < chiZ n t ∧ (n : ℝ) * chiZ n s ^ 3 < (n : ℝ) * chiZ n t ^ 3 :=
+  ⟨chiZ_strictMono_piece hn hst hsel hs ht, chi_cube_lt hn (chiZ_strictMono_piece hn hst hsel hs ht)⟩
+
+/-- **`Chi_square` decreasing in p wherever `Normal` is** (regenerated functions): if `Normal(q) < Normal(p)` — what a
+    strictly decreasing `Normal` gives for `p < q` — both inside the window and the same piece, then
+    `Chi_square(q, n) < Chi_square(p, n)` -/
+theorem C17_chi2_mono_given_normal (fuel : ℕ) {n : ℤ} (hn : 3 ≤ n) {p q : ℝ}
+    (hN : Gen.Statan.Normal fuel q < Gen.Statan.Normal fuel p)
+    (hsel : StatanGen.chiSel n (Gen.Statan.Normal fuel q) = StatanGen.chiSel n (Gen.Statan.Normal fuel p))
+    (hq : Gen.Statan.Normal fuel q ^ 2 ≤ 49 / 16 * (n : ℝ)) (hp : Gen.Statan.Normal fuel p ^ 2 ≤ 49 / 16 * (n : ℝ)) :
+    Gen.Statan.Chi_square fuel q n < Gen.Statan.Chi_square fuel p n := by
+  simp only [← chiSquare_eq_gen, ← normal_eq_gen] at *
+  exact chiSquare_anti_of_normal fuel hn hN hsel hq hp
+
+/-- **junction inequalities** for n = 4 (|t| = 3/4) and n = 16 (|t| = 15/4), the n ≤ 20 with a rational root whose pieces
+    join in the right order on both sides: B ≤ A at the upper junction, A ≤ B at the lower one -/
+theorem C17_chi2_junctions_4_16 :
+    StatanGen.chiPolyB (1 / 4 : ℝ) (3 / 8) < StatanGen.chiPolyA (1 / 4) (3 / 8) ∧
+    StatanGen.chiPolyA (1 / 4 : ℝ) (-(3 / 8)) < StatanGen.chiPolyB (1 / 4) (-(3 / 8)) ∧
+    StatanGen.chiPolyB (1 / 16 : ℝ) (15 / 16) < StatanGen.chiPolyA (1 / 16) (15 / 16) ∧
+    StatanGen.chiPolyA (1 / 16 : ℝ) (-(15 / 16)) < StatanGen.chiPolyB (1 / 16) (-(15 / 16)) := chi_junction_4_16
+
+/-- NEG (finding C17-F2, replayed on the C++): n = 9, inside the window, `s = −2 < t = −1.999999` but
+    `chiZ 9 t < chiZ 9 s`: at the lower junction `t = −(n−1)/4` polynomial A (used below) lies above polynomial B (used
+    above) — `Chi_square(p, 9)` steps DOWN by ≈ 1e-5 where p passes Φ(2) = 0.97725.  So `hsel` cannot be dropped. -/
+theorem C17_chi2_junction_step_9 :
+    ∃ s t : ℝ, s < t ∧ s ^ 2 ≤ 49 / 16 * ((9 : ℤ) : ℝ) ∧ t ^ 2 ≤ 49 / 16 * ((9 : ℤ) : ℝ) ∧ chiZ 9 t < chiZ 9 s := by
+  refine ⟨-2, -(1999999 / 1000000), by norm_num, by norm_num, by norm_num, ?_⟩
+  have hq : Real.sqrt (1 / ((9 : ℤ) : ℝ)) = 1 / 3 := by
+    rw [show (1 / ((9 : ℤ) : ℝ)) = (1 / 3 : ℝ) ^ 2 by norm_num]; exact Real.sqrt_sq (by norm_num)
+  have h1 : (Trunc.trunc ((4 : ℝ) * 2) : ℤ) = 8 := by
+    show (if (0 : ℝ) ≤ 4 * 2 then ⌊(4 * 2 : ℝ)⌋ else ⌈(4 * 2 : ℝ)⌉) = 8
+    rw [if_pos (by norm_num), Int.floor_eq_iff]; constructor <;> norm_num
+  have h2 : (Trunc.trunc ((4 : ℝ) * |(1999999 / 1000000 : ℝ)|) : ℤ) = 7 := by
+    show (if (0 : ℝ) ≤ 4 * |(1999999 / 1000000 : ℝ)| then ⌊(4 * |(1999999 / 1000000 : ℝ)| : ℝ)⌋
+      else ⌈(4 * |(1999999 / 1000000 : ℝ)| : ℝ)⌉) = 7
+    have e : (4 * |(1999999 / 1000000 : ℝ)| : ℝ) = 1999999 / 250000 := by rw [abs_of_pos (by norm_num)]; norm_num
+    rw [e, if_pos (by norm_num), Int.floor_eq_iff]; constructor <;> norm_num
+  have s1 : StatanGen.chiSel 9 (-2 : ℝ) = true := by unfold StatanGen.chiSel; simp [h1]
+  have s2 : StatanGen.chiSel 9 (-(1999999 / 1000000) : ℝ) = false := by unfold StatanGen.chiSel; simp [h2]
+  unfold chiZ
+  rw [s1, s2, hq]
+  simp only [chiPolyA_rat, chiPolyB_rat]
+  norm_num
+
+/-- NEG (known finding C17-F1 in the model): n = 4 (`f2 = t/2`), far outside the window: polynomial A has turned round,
+    `t = −6 < −5.5` but `A(1/4, −3) > A(1/4, −2.75)` — the extreme lower tail (1 − p < 1e-7) is not monotone -/
+theorem C17_chi2_extreme_tail_turns_4 :
+    StatanGen.chiPolyA (1 / 4 : ℝ) (-(11 / 4)) < StatanGen.chiPolyA (1 / 4) (-3) := chi_extreme_tail_4_fails
+
+-- non-vacuity: n = 7, s = 0 < t = 1 (both |·| < 3/2: polynomial B), inside the window
+example : (3 : ℤ) ≤ 7 ∧ (0 : ℝ) < 1 ∧ (0 : ℝ) ^ 2 ≤ 49 / 16 * ((7 : ℤ) : ℝ) ∧ (1 : ℝ) ^ 2 ≤ 49 / 16 * ((7 : ℤ) : ℝ) := by norm_num
+example : (0 : ℝ) ≤ 1 / 7 ∧ (1 / 7 : ℝ) ≤ 1 / 3 ∧ |(-1 : ℝ)| ≤ 7 / 4 ∧ |(3 / 2 : ℝ)| ≤ 7 / 4 ∧ (-1 : ℝ) < 3 / 2 := by
+  refine ⟨by norm_num, by norm_num, ?_, ?_, by norm_num⟩
+  · rw [abs_of_neg (by norm_num)]; norm_num
+  · rw [abs_of_pos (by norm_num)]; norm_num
 
 end Gama.Props.C17
